@@ -101,6 +101,18 @@ fn do_line(out: &mut Out, line: &str) {
 				}
 				Err(_) => Ok(()),
 			};
+			// the conversion from an already parsed JSON value must agree with parsing the text
+			let orc = orc.and_then(|_| match serde_json::from_str::<serde_json::Value>(&t) {
+				Ok(v) => {
+					let via: Result<SubscriptionId, _> = SubscriptionId::try_from(v);
+					match (&r, &via) {
+						(Ok(a), Ok(b)) if a == b => Ok(()),
+						(Err(_), Err(_)) => Ok(()),
+						_ => Err(format!("SubscriptionId::try_from(Value) = {via:?} but parsing `{t}` gives {r:?}")),
+					}
+				}
+				Err(_) => Ok(()),
+			});
 			out.line(line.into(), o, orc, r.is_ok());
 		}
 		"subid_enc" => {
